@@ -433,7 +433,18 @@ class Interp:
         if reflect.is_repo_function(f):
             return self.call_repo(f, args, kwargs, frame, cls_ctx)
         name = getattr(f, "__qualname__", getattr(f, "__name__", repr(f)))
-        mod = getattr(f, "__module__", "")
+        mod = getattr(f, "__module__", "") or ""
+        # pure numeric library functions on concrete arguments are evaluated natively
+        import numpy as _np
+
+        if (isinstance(f, _np.ufunc) or mod.split(".")[0] in ("numpy", "math")) and all(self.is_concrete(a) and not isinstance(a, (PList, PDict)) for a in list(args) + list(kwargs.values())):
+            try:
+                out = f(*args, **kwargs)
+            except Exception as exc:
+                self.raise_(type(exc))
+            if isinstance(out, _np.generic):
+                out = out.item()
+            return out
         if self.lenient:
             self.ex.note("opaque-call", f"{mod}.{name}")
             return self.opaque_result(f"{mod}.{name}()", list(args) + list(kwargs.values()))
